@@ -345,6 +345,18 @@ Theorem C13_parent_sign_live :
 Proof. move=> F Hh k dealers h cur msgs dk; exact: parent_sign_live. Qed.
 Print Assumptions C13_parent_sign_live.
 
+(* Re-dealing after a dealer restart: in the model the dealer's pieces are a function of the dealer (its
+   polynomial is fixed by miner secret and group hash), so every re-delivery schedule is covered by
+   C13_node_keys (duplicates refused, first wins).  A restarted dealer dealing a FRESH polynomial breaks
+   the property (witness over Z mod 7, threshold 2: two threshold subsets recover different values). *)
+Theorem C13_redeal_fresh_polynomial_refuted :
+  let o := zq 7 in
+  let key p x := oadd o (eval_poly o p x) (eval_poly o [:: 1; 5]%ZZ x) in
+  let kA := key [:: 3; 1]%ZZ 1%ZZ in let kB := key [:: 4; 2]%ZZ 2%ZZ in let kC := key [:: 4; 2]%ZZ 3%ZZ in
+  recover o [:: 1; 2]%ZZ [:: kA; kB] <> recover o [:: 2; 3]%ZZ [:: kB; kC].
+Proof. exact: redeal_fresh_polynomial_refuted. Qed.
+Print Assumptions C13_redeal_fresh_polynomial_refuted.
+
 (* Non-vacuity: (a) the hypotheses of the Z-mod-q theorems are satisfiable (q = 3, ids 1,2, dealer
    polynomials 2+x and 1+2x); (b) a run over the real curve order: n = 5, k = 3, two dealers, two
    different member subsets recover the same value = group secret * h. *)
